@@ -60,8 +60,14 @@ func (v gval) tok() string {
 	return "?"
 }
 
-// goValue is what is stored in the row map (ok=false: the field is absent).
-func (v gval) goValue() (any, bool) {
+// goValue is what is stored in the row map (ok=false: the field is absent). Window-bound rows keep
+// ONE rendering per number: an integral number travels as float64 only below 1e6, where
+// cast.ToString and %v print plain digits (the global window prints float64(1e8) as "1e+08" and
+// int(1e8) as "100000000": two Go types in one column are outside the property's quantifier).
+func (v gval) goValue() (any, bool) { return v.goValueMode(false) }
+
+// goValueMode(true): for the aggregator, whose key normalises every integral number.
+func (v gval) goValueMode(agg bool) (any, bool) {
 	switch v.kind {
 	case 'm':
 		return nil, false
@@ -76,7 +82,7 @@ func (v gval) goValue() (any, bool) {
 		case 1:
 			return v.i, true
 		case 2:
-			if v.i > -(1<<53) && v.i < (1<<53) {
+			if (agg && v.i > -(1<<53) && v.i < (1<<53)) || (v.i > -1000000 && v.i < 1000000) {
 				return float64(v.i), true
 			}
 			return v.i, true
@@ -153,12 +159,14 @@ func (r grow) tok() string {
 
 func colName(i int) string { return "k" + strconv.Itoa(i+1) }
 
-func (r grow) toMap() map[string]any {
+func (r grow) toMap() map[string]any { return r.toMapMode(false) }
+
+func (r grow) toMapMode(agg bool) map[string]any {
 	m := map[string]any{"id": r.id}
 	for i, v := range r.vals {
 		if x, ok := r.raw[i]; ok {
 			m[colName(i)] = x
-		} else if x, ok := v.goValue(); ok {
+		} else if x, ok := v.goValueMode(agg); ok {
 			m[colName(i)] = x
 		}
 	}
@@ -174,7 +182,7 @@ func rowsTok(rows []grow) string {
 }
 
 // ---- generators ----------------------------------------------------------------------------
-var strFrags = []string{"a", "b", "c", "|", "|", ",", "\x1f", "\x00", ":", "1", "NULL", "nil", "\x00NULL", "string|", "x|y", "6:", "|7:string|", "é", " "}
+var strFrags = []string{"a", "b", "c", "|", "|", "\\", "\\N", "\\|", ",", "\x1f", "\x00", ":", "1", "NULL", "nil", "\x00NULL", "string|", "x|y", "6:", "|7:string|", "é", " "}
 
 func genString(rng *RNG) string {
 	n := rng.Intn(4)
@@ -210,7 +218,9 @@ func genVal(rng *RNG, colKind int) gval {
 
 // genTuples builds a pool of distinct-looking key tuples for one case; the families put the
 // separators and markers of the old encoders where they hurt.
-func genTuples(rng *RNG, ncols int) [][]gval {
+// agg = false (rows that pass through a keyed window): one scalar type per column, so the family that
+// puts numbers next to their texts in one column is left to the aggregator.
+func genTuples(rng *RNG, ncols int, agg bool) [][]gval {
 	if ncols == 0 {
 		return [][]gval{{}}
 	}
@@ -222,9 +232,13 @@ func genTuples(rng *RNG, ncols int) [][]gval {
 		}
 		return t[:ncols]
 	}
-	switch fam := rng.Intn(6); fam {
+	fam := rng.Intn(6)
+	if fam == 2 && !agg {
+		fam = 3
+	}
+	switch fam {
 	case 0: // separator shift between (or inside) columns
-		sep := []string{"|", "|", "\x1f", ",", ":", "|6:nil||", "|string|", "|8:string|", "|nil||string|"}[rng.Intn(9)]
+		sep := []string{"|", "|", "\x1f", ",", ":", "|6:nil||", "|string|", "|8:string|", "|nil||string|", "\\|", "\\", "\\N|"}[rng.Intn(12)]
 		x, y, z := rng.Pick([]string{"a", "x", "", "1"}), rng.Pick([]string{"b", "y", "", "2"}), rng.Pick([]string{"c", "z", ""})
 		if ncols >= 2 {
 			pool = append(pool, pad([]gval{S(x + sep + y), S(z)}), pad([]gval{S(x), S(y + sep + z)}), pad([]gval{S(x), S(y)}))
@@ -232,7 +246,7 @@ func genTuples(rng *RNG, ncols int) [][]gval {
 			pool = append(pool, []gval{S(x + sep + y)}, []gval{S(x)}, []gval{S(x + sep)}, []gval{S(sep + y)})
 		}
 	case 1: // NULL, missing, "", markers
-		cands := []gval{{kind: 'n'}, {kind: 'm'}, S(""), S("\x00NULL"), S("nil"), S("<nil>"), S("NULL"), S("nil|")}
+		cands := []gval{{kind: 'n'}, {kind: 'm'}, S(""), S("\x00NULL"), S("nil"), S("<nil>"), S("NULL"), S("nil|"), S("\\N"), S("\\"), S("\\\\N")}
 		for i := 0; i < 2+rng.Intn(4); i++ {
 			t := make([]gval, ncols)
 			for j := range t {
@@ -542,7 +556,7 @@ type keyStruct struct{ K1, K2, K3 any }
 func encoderCases(rng *RNG, o *Out, n int) error {
 	for i := 0; i < n; i++ {
 		ncols := rng.Intn(4)
-		pool := genTuples(rng, ncols)
+		pool := genTuples(rng, ncols, true)
 		for _, t := range pool {
 			r := grow{id: 1, vals: t}
 			m := r.toMap()
@@ -551,9 +565,23 @@ func encoderCases(rng *RNG, o *Out, n int) error {
 				vt[j] = v.tok()
 			}
 			vs := strings.Join(vt, " ")
+			// the window sites render a non-integral float themselves (cast.ToString: 'f'; %v: 'g'); the
+			// model takes that text as given
+			siteToks := func(render func(float64) string) string {
+				ts := make([]string, len(t))
+				for j, v := range t {
+					ts[j] = v.tok()
+					if v.kind == 'f' {
+						ts[j] = "f" + hexTok(render(v.f))
+					}
+				}
+				return strings.Join(ts, " ")
+			}
+			vsTS := siteToks(func(f float64) string { return cast.ToString(f) })
+			vsV := siteToks(func(f float64) string { return fmt.Sprintf("%v", f) })
 			// aggregator
 			ga := aggregator.NewGroupAggregator(keyNames(ncols), []aggregator.AggregationField{{InputField: "*", AggregateType: aggregator.Count, OutputAlias: "c"}})
-			if err := ga.Add(m); err != nil {
+			if err := ga.Add(r.toMapMode(true)); err != nil {
 				return err
 			}
 			for k := range ga.VerifGroupKeys() {
@@ -563,14 +591,14 @@ func encoderCases(rng *RNG, o *Out, n int) error {
 			if err != nil {
 				return err
 			}
-			o.Line("C04 K cnt %d %s %s", ncols, vs, hexTok(cw.VerifGetKey(m)))
+			o.Line("C04 K cnt %d %s %s", ncols, vsTS, hexTok(cw.VerifGetKey(m)))
 			cw.Stop()
-			o.Line("C04 K ses %d %s %s", ncols, vs, hexTok(window.VerifSessionKey(m, keyNames(ncols))))
+			o.Line("C04 K ses %d %s %s", ncols, vsTS, hexTok(window.VerifSessionKey(m, keyNames(ncols))))
 			gw, err := window.NewGlobalWindow(types.WindowConfig{Type: window.TypeGlobal, GroupByKeys: keyNames(ncols), TriggerCondition: "COUNT(*) >= 2"})
 			if err != nil {
 				return err
 			}
-			o.Line("C04 K glb %d %s %s", ncols, vs, hexTok(gw.VerifGetKey(m)))
+			o.Line("C04 K glb %d %s %s", ncols, vsV, hexTok(gw.VerifGetKey(m)))
 			gw.Stop()
 			if ncols > 0 {
 				var st keyStruct
@@ -583,12 +611,12 @@ func encoderCases(rng *RNG, o *Out, n int) error {
 				if err != nil {
 					return err
 				}
-				o.Line("C04 K cnt %d %s %s", ncols, vs, hexTok(cws.VerifGetKey(st)))
+				o.Line("C04 K cnt %d %s %s", ncols, vsTS, hexTok(cws.VerifGetKey(st)))
 				cws.Stop()
-				o.Line("C04 K ses %d %s %s", ncols, vs, hexTok(window.VerifSessionKey(&st, names)))
+				o.Line("C04 K ses %d %s %s", ncols, vsTS, hexTok(window.VerifSessionKey(&st, names)))
 			}
 			if ncols == 1 {
-				if x, ok := t[0].goValue(); ok {
+				if x, ok := t[0].goValueMode(true); ok {
 					o.Line("C04 K part 1 %s %s", vs, hexTok(cast.GroupKeyPart(x)))
 				}
 			}
@@ -601,13 +629,13 @@ func encoderCases(rng *RNG, o *Out, n int) error {
 // aggregator API: one batch = the rows added between two Resets
 func aggregatorCase(rng *RNG, o *Out) error {
 	ncols := rng.Intn(4)
-	pool := genTuples(rng, ncols)
+	pool := genTuples(rng, ncols, true)
 	rows := genRows(rng, pool, 1+rng.Intn(14), 1)
 	ga := aggregator.NewGroupAggregator(keyNames(ncols), []aggregator.AggregationField{
 		{InputField: "*", AggregateType: aggregator.Count, OutputAlias: "c"},
 		{InputField: "id", AggregateType: aggregator.Collect, OutputAlias: "ids"}})
 	for _, r := range rows {
-		if err := ga.Add(r.toMap()); err != nil {
+		if err := ga.Add(r.toMapMode(true)); err != nil {
 			return err
 		}
 	}
@@ -628,7 +656,7 @@ func aggregatorCase(rng *RNG, o *Out) error {
 // session window through its API (processing time): every session is one batch of one key
 func sessionAPICase(rng *RNG) (string, error) {
 	ncols := 1 + rng.Intn(3)
-	pool := genTuples(rng, ncols)
+	pool := genTuples(rng, ncols, false)
 	rows := genRows(rng, pool, 2+rng.Intn(12), 1)
 	sw, err := window.NewSessionWindow(types.WindowConfig{Type: "session", Params: []any{60 * time.Millisecond}, GroupByKeys: keyNames(ncols)})
 	if err != nil {
@@ -687,7 +715,7 @@ func sessionAPICase(rng *RNG) (string, error) {
 // time windows through SQL: tumbling / session, processing time
 func timeWindowSQLCase(rng *RNG, kind string) (string, error) {
 	ncols := 1 + rng.Intn(3)
-	pool := genTuples(rng, ncols)
+	pool := genTuples(rng, ncols, false)
 	rows := genRows(rng, pool, 2+rng.Intn(12), 1)
 	win := "TumblingWindow('150ms')"
 	if kind == "session" {
@@ -772,7 +800,7 @@ func fnKeyCase(rng *RNG, o *Out) error {
 func genCountingRows(rng *RNG) (n, ncols int, rows []grow) {
 	n = []int{1, 2, 3, 7}[rng.Intn(4)]
 	ncols = rng.Intn(4)
-	pool := genTuples(rng, ncols)
+	pool := genTuples(rng, ncols, false)
 	l := rng.Intn(6 * n)
 	if rng.Intn(3) == 0 { // exact multiples
 		l = n * (1 + rng.Intn(5))
